@@ -16,19 +16,21 @@ import (
 
 // stressCfg is one free-running (jittered) run; replay format.
 type stressCfg struct {
-	Seed       int64 `json:"seed"`
-	Run        int   `json:"run"`
-	Race       bool  `json:"race_build"`
-	Pools      int   `json:"pools"`
-	Group      bool  `json:"group"`
-	Workers    []int `json:"workers"`
-	Cancel     bool  `json:"cancel"`
-	Submitters int   `json:"submitters"`
-	PerSub     int   `json:"per_submitter"`
-	Nest       int   `json:"nest"`
-	Cycles     int   `json:"cycles"`
-	NoWait     bool  `json:"restart_without_wait"` // controller calls Shutdown(); Start() without ShutdownComplete.Wait() in between
-	AllBusy    bool  `json:"all_busy"`             // pool 0: every worker is held in a task until the controller has entered its first Shutdown; the tasks then call back into the pool
+	Seed        int64 `json:"seed"`
+	Run         int   `json:"run"`
+	Race        bool  `json:"race_build"`
+	Pools       int   `json:"pools"`
+	Group       bool  `json:"group"`
+	Workers     []int `json:"workers"`
+	Cancel      bool  `json:"cancel"`
+	Submitters  int   `json:"submitters"`
+	PerSub      int   `json:"per_submitter"`
+	Nest        int   `json:"nest"`
+	Cycles      int   `json:"cycles"`
+	NoWait      bool  `json:"restart_without_wait"` // controller calls Shutdown(); Start() without ShutdownComplete.Wait() in between
+	Watchers    bool  `json:"watchers"`             // third parties parked on Queue / PendingTasksCounter waits before any Submit
+	DoubleStart bool  `json:"double_start"`         // every restart is done by two concurrent Start callers
+	AllBusy     bool  `json:"all_busy"`             // pool 0: every worker is held in a task until the controller has entered its first Shutdown; the tasks then call back into the pool
 }
 
 func genStress(seed int64, run int, race bool) stressCfg {
@@ -46,6 +48,8 @@ func genStress(seed int64, run int, race bool) stressCfg {
 	c.Nest = rng.Intn(3)
 	c.Cycles = rng.Intn(4)
 	c.NoWait = rng.Intn(4) == 0
+	c.Watchers = rng.Intn(3) == 0
+	c.DoubleStart = rng.Intn(3) == 0
 	if c.AllBusy = rng.Intn(3) == 0; c.AllBusy {
 		c.Cycles = max(c.Cycles, 1)
 	}
@@ -146,6 +150,17 @@ func runStress(cfg stressCfg) (res stressResult) {
 		return
 	}
 
+	if cfg.Watchers {
+		never := 1 << 20
+		for _, p := range pools {
+			p := p
+			go p.pool.Queue.WaitSizeIsAbove(never)
+			go p.pool.Queue.WaitSizeIsBelow(0)
+			go p.pool.PendingTasksCounter.WaitIsAbove(never)
+			go p.pool.PendingTasksCounter.WaitIsBelow(-never)
+		}
+		waitQuiescent()
+	}
 	maxTasks := cfg.Submitters*cfg.PerSub*4 + 2*effWorkers(cfg.Workers[0]) + 8
 	recs := make([]sTask, maxTasks)
 	var next, submitCalls, notRunning atomic.Int64
@@ -291,7 +306,17 @@ func runStress(cfg stressCfg) (res stressResult) {
 				p.mu.Unlock()
 			}
 			ctrlStage.Store("Start")
-			p.pool.Start()
+			if cfg.DoubleStart {
+				second := make(chan struct{})
+				go func() { p.pool.Start(); close(second) }()
+				p.pool.Start()
+				// wait for the second caller unconditionally: a Start that is still in flight while the next
+				// cycle's ShutdownComplete.Wait() runs is a sync.WaitGroup reuse (Add during Wait) and panics in
+				// the waiter - a known hazard of the exported WaitGroup that this family does not exercise
+				<-second
+			} else {
+				p.pool.Start()
+			}
 			ctrlStage.Store("")
 		}
 	}()
@@ -330,7 +355,22 @@ func runStress(cfg stressCfg) (res stressResult) {
 		}
 	}
 	subsDone.Store(true)
-	waitQuiescent()
+	gs1 := waitQuiescent()
+	select {
+	case <-ctrlDone:
+		// every pool is running again and nothing can happen any more: all accepted tasks must have run,
+		// and there must be exactly one dispatcher and WorkerCount() workers per pool
+		for i, p := range pools {
+			if cnt, q := safeCounterQueue(p.pool); cnt != 0 || q != 0 {
+				res.Findings = append(res.Findings, finding{"accepted-task-not-run-while-running", fmt.Sprintf("stress: pool %d is running and everything is parked, but PendingTasksCounter=%d Queue.Size()=%d (%s)", i, cnt, q, patternOf(gs1, before))})
+				break
+			}
+		}
+		if p1 := patternOf(gs1, before); len(res.Findings) == 0 && (p1.NDisp != len(pools) || p1.total() != wantG) {
+			res.Findings = append(res.Findings, finding{"start/pool-started-twice", fmt.Sprintf("stress: %d pools with %d goroutines in total are running, but the snapshot shows %d dispatchers and %d pool goroutines (%s)", len(pools), wantG, p1.NDisp, p1.total(), p1)})
+		}
+	default:
+	}
 	stuckPool := -1
 	select {
 	case <-ctrlDone:
